@@ -676,3 +676,8 @@ mod test {
         assert_eq!(egraph.get_size("S"), 1);
     }
 }
+
+#[cfg(kani)]
+mod verif_kani {
+    include!(concat!(env!("EGGLOG_VERIF_DIR"), "/kani/sched_matches.rs"));
+}
